@@ -907,16 +907,15 @@ func (s *Server) parseTemplate(ctx context.Context, uri protocol.DocumentURI, co
 		}
 		var posErr compiler.PositionalError
 		if errors.As(err, &posErr) {
-			diagnostic.Range = protocol.Range{
-				Start: protocol.Position{
-					Line:      uint32(posErr.Line),
-					Character: uint32(posErr.Column),
-				},
-				End: protocol.Position{
-					Line:      uint32(posErr.Line),
-					Character: uint32(posErr.Column),
-				},
+			// the compiler counts lines and columns from one, the protocol from zero
+			pos := protocol.Position{}
+			if posErr.Line > 0 {
+				pos.Line = uint32(posErr.Line - 1)
 			}
+			if posErr.Column > 0 {
+				pos.Character = uint32(posErr.Column - 1)
+			}
+			diagnostic.Range = protocol.Range{Start: pos, End: pos}
 		}
 		diagnostics := []protocol.Diagnostic{
 			diagnostic,
